@@ -99,6 +99,11 @@ def run_case(case, rec):
     if not np.all(np.isfinite(A)):
         rec.skipped("split", "reference run not finite")
         return
+    if np.max(np.abs(A)) > 1e4:
+        # an explicit scheme beyond its stability limit: the trajectory grows without bound (1e26 mV observed) and amplifies the
+        # rounding differences between differently compiled programs (scan vs eager stepping) to any size - nothing to compare
+        rec.skipped("split", "reference run is numerically unstable (|value| > 1e4): differential comparison is meaningless")
+        return
     # ---- pieces
     bounds = [0] + case["cuts"] + [N]
     states = None
